@@ -107,6 +107,20 @@ type c32Case struct {
 	// Schedule (kind concurrent only): order in which the admin requests of the two changes
 	// A and B are let through on every proxy, e.g. ["pA","pB","cA","cB"].
 	Schedule []string `json:"schedule,omitempty"`
+	// Kinds (kind concurrent only): the kinds of the two overlapping changes A and B
+	// (create | modify | delete); empty = two modifications. Events of the schedule: "pA" /
+	// "cA" = prepare / commit request of change A, "dB" = delete request of change B.
+	Kinds []string `json:"kinds,omitempty"`
+}
+
+func (c c32Case) kindOf(k int) string {
+	if c.Kind != "concurrent" {
+		return c.Kind
+	}
+	if k < len(c.Kinds) {
+		return c.Kinds[k]
+	}
+	return "modify"
 }
 
 func (c c32Case) key() string {
@@ -658,10 +672,7 @@ func (r *c32Rig) run(c c32Case) (res c32Result, inconclusive string) {
 	kinds := make([]string, nChanges)
 	prev := make([]int, nChanges)
 	for k := range kinds {
-		kinds[k] = c.Kind
-		if c.Kind == "concurrent" {
-			kinds[k] = "modify"
-		}
+		kinds[k] = c.kindOf(k)
 		prev[k] = c32V0
 		if kinds[k] == "create" {
 			prev[k] = -1
@@ -720,7 +731,7 @@ func (r *c32Rig) run(c c32Case) (res c32Result, inconclusive string) {
 		states[i] = &pstate{preparedOK: map[string]bool{}, attempts: map[string]int{}}
 	}
 	evName := func(q cckit.ShimRequest) string {
-		if gate == nil || (q.Op != "prepare" && q.Op != "commit") {
+		if gate == nil || (q.Op != "prepare" && q.Op != "commit" && q.Op != "delete") {
 			return ""
 		}
 		x := "A"
@@ -872,6 +883,19 @@ func (r *c32Rig) run(c c32Case) (res c32Result, inconclusive string) {
 	if sv, exact := r.storeObserve(c32Bystander); sv != c32V0 || !exact {
 		res.Broken = append(res.Broken, "bystander-store-changed")
 	}
+	if nChanges > 1 {
+		// after BOTH operations have finished: whatever was reported, every proxy must run,
+		// for each namespace, exactly what the store holds (absent = absent)
+		for k, name := range res.Names {
+			sv, _ := r.storeObserve(name)
+			for _, p := range act {
+				if o := p.observe(name); o != c32Want(sv) {
+					res.Broken = append(res.Broken, fmt.Sprintf("final:proxy-differs-from-store[%c]", 'A'+k))
+					break
+				}
+			}
+		}
+	}
 	sort.Strings(res.Broken)
 
 	// ---- clean-up: remove the case's namespaces everywhere, verified ----
@@ -919,7 +943,11 @@ func c32Sig(c c32Case, broken []string) string {
 		ps = append(ps, p.String())
 	}
 	sort.Strings(ps)
-	s := c.Kind + "|n=" + fmt.Sprint(len(c.Proxies)) + "|" + strings.Join(ps, ";")
+	kind := c.Kind
+	if c.Kind == "concurrent" {
+		kind = "concurrent(" + c.kindOf(0) + "+" + c.kindOf(1) + ")"
+	}
+	s := kind + "|n=" + fmt.Sprint(len(c.Proxies)) + "|" + strings.Join(ps, ";")
 	if len(c.Schedule) > 0 {
 		s += "|" + strings.Join(c.Schedule, ">")
 	}
@@ -932,19 +960,19 @@ func c32Weaker(c c32Case) []c32Case {
 	var out []c32Case
 	if len(c.Proxies) > 1 {
 		for i := range c.Proxies {
-			d := c32Case{Kind: c.Kind, Schedule: c.Schedule}
+			d := c32Case{Kind: c.Kind, Schedule: c.Schedule, Kinds: c.Kinds}
 			d.Proxies = append(append([]c32PF{}, c.Proxies[:i]...), c.Proxies[i+1:]...)
 			out = append(out, d)
 		}
 	}
 	for i, p := range c.Proxies {
 		if p.P != c32OK {
-			d := c32Case{Kind: c.Kind, Schedule: c.Schedule, Proxies: append([]c32PF{}, c.Proxies...)}
+			d := c32Case{Kind: c.Kind, Schedule: c.Schedule, Kinds: c.Kinds, Proxies: append([]c32PF{}, c.Proxies...)}
 			d.Proxies[i].P = c32OK
 			out = append(out, d)
 		}
 		if p.C != c32OK && p.C != "" {
-			d := c32Case{Kind: c.Kind, Schedule: c.Schedule, Proxies: append([]c32PF{}, c.Proxies...)}
+			d := c32Case{Kind: c.Kind, Schedule: c.Schedule, Kinds: c.Kinds, Proxies: append([]c32PF{}, c.Proxies...)}
 			d.Proxies[i].C = c32OK
 			out = append(out, d)
 		}
@@ -1005,10 +1033,58 @@ func c32Vectors(kind string, n int, prepKinds []string, ordered bool) []c32Case 
 	return out
 }
 
-func c32Schedules() [][]string {
-	// interleavings of (pA,cA) and (pB,cB) that keep each change's own order, up to renaming
-	// the two changes (A is the change whose prepare comes first)
-	return [][]string{{"pA", "cA", "pB", "cB"}, {"pA", "pB", "cA", "cB"}, {"pA", "pB", "cB", "cA"}}
+// c32Events: the proxy requests of one change of the given kind, in the control plane's order.
+func c32Events(kind, x string) []string {
+	if kind == "delete" {
+		return []string{"d" + x}
+	}
+	return []string{"p" + x, "c" + x}
+}
+
+// c32Interleavings merges two event sequences in every order-preserving way.
+func c32Interleavings(a, b []string) [][]string {
+	if len(a) == 0 {
+		return [][]string{append([]string{}, b...)}
+	}
+	if len(b) == 0 {
+		return [][]string{append([]string{}, a...)}
+	}
+	var out [][]string
+	for _, r := range c32Interleavings(a[1:], b) {
+		out = append(out, append([]string{a[0]}, r...))
+	}
+	for _, r := range c32Interleavings(a, b[1:]) {
+		out = append(out, append([]string{b[0]}, r...))
+	}
+	return out
+}
+
+// c32ConcurrentCases: every unordered pair of change kinds on two different namespaces x
+// every interleaving of their proxy requests (for two changes of the same kind up to renaming
+// them: A's first request comes first) x n interchangeable fault-free proxies.
+func c32ConcurrentCases(n int) []c32Case {
+	kinds := []string{"modify", "create", "delete"}
+	var out []c32Case
+	for i, ka := range kinds {
+		for _, kb := range kinds[i:] {
+			for _, sch := range c32Interleavings(c32Events(ka, "A"), c32Events(kb, "B")) {
+				if ka == kb && strings.HasSuffix(sch[0], "B") {
+					continue
+				}
+				c := c32Case{Kind: "concurrent", Kinds: []string{ka, kb}, Schedule: sch}
+				for p := 0; p < n; p++ {
+					c.Proxies = append(c.Proxies, c32PF{P: c32OK, C: c32OK})
+				}
+				if ka == "delete" {
+					for p := range c.Proxies {
+						c.Proxies[p].C = ""
+					}
+				}
+				out = append(out, c)
+			}
+		}
+	}
+	return out
 }
 
 // c32ReachesCommit: no persistent fault on any prepare phase, so the commit phase runs.
@@ -1034,13 +1110,7 @@ func c32Space() (all []c32Case, exhaustive bool) {
 	}
 	var conc []c32Case
 	for n := 1; n <= 3; n++ {
-		for _, s := range c32Schedules() {
-			c := c32Case{Kind: "concurrent", Schedule: s}
-			for i := 0; i < n; i++ {
-				c.Proxies = append(c.Proxies, c32PF{P: c32OK, C: c32OK})
-			}
-			conc = append(conc, c)
-		}
+		conc = append(conc, c32ConcurrentCases(n)...)
 	}
 	pick := func(from []c32Case, k int) []c32Case {
 		var out []c32Case
@@ -1072,7 +1142,7 @@ func c32Space() (all []c32Case, exhaustive bool) {
 		all = append(all, pick(ot, 150)...)
 		return all, true
 	}
-	// quick: every 1-proxy placement, the concurrent schedules on 2 proxies, and a seeded
+	// quick: every 1-proxy placement, the concurrent schedules on 1 and 2 proxies, and a seeded
 	// sample of multi-proxy placements, half of which reach the commit phase
 	for _, c := range base {
 		if len(c.Proxies) == 1 {
@@ -1080,7 +1150,7 @@ func c32Space() (all []c32Case, exhaustive bool) {
 		}
 	}
 	for _, c := range conc {
-		if len(c.Proxies) == 2 {
+		if len(c.Proxies) <= 2 {
 			all = append(all, c)
 		}
 	}
@@ -1100,7 +1170,7 @@ func TestVerif_C32(t *testing.T) {
 	rec := kit.Start("C32", "fault_enumeration",
 		"cases = change kind {create, modify, delete} x 1..3 registered real proxies x per proxy a fault on the prepare phase "+
 			"(ok, ping fails, error reply before acting, act-then-drop; for <=2 proxies also first-attempt-only variants) and on the commit phase "+
-			"(ok, ping fails, error reply, act-then-drop); plus two concurrent modifications of different namespaces under each of the 6 request interleavings; "+
+			"(ok, ping fails, error reply, act-then-drop); plus two overlapping changes of different namespaces for every pair of kinds (modify/create/delete) under every interleaving of their prepare/commit/delete requests (gated in the shims, 19 schedules), with a final proxy-equals-store re-check; "+
 			"thorough enumerates all placements, quick all 1-proxy placements and a seeded sample of the others; non-trivial = a fault was injected or two changes overlapped; "+
 			"key = the case")
 	defer rec.Finish(t)
@@ -1229,7 +1299,7 @@ func TestVerif_C32(t *testing.T) {
 
 // c32Canon is the case with its per-proxy fault vectors sorted.
 func c32Canon(c c32Case) string {
-	d := c32Case{Kind: c.Kind, Schedule: c.Schedule, Proxies: append([]c32PF{}, c.Proxies...)}
+	d := c32Case{Kind: c.Kind, Schedule: c.Schedule, Kinds: c.Kinds, Proxies: append([]c32PF{}, c.Proxies...)}
 	sort.Slice(d.Proxies, func(i, j int) bool { return d.Proxies[i].String() < d.Proxies[j].String() })
 	return d.key()
 }
